@@ -1,9 +1,9 @@
 """C09: metadata is fetched lazily, causally and at most once."""
 import vlib
-from props import asynclib as al, solverstream as ss, enctie
+from props import asynclib as al, solverstream as ss, enctie, tracecheck as tc
 
 THEOREMS = ["C09_causal_checker", "C09_once_checker", "C09_exact_checker",
-            "C09_model_once", "C09_model_causal", "C09_model_lazy", "C09_model_exact"]
+            "C09_model_once", "C09_model_causal", "C09_model_lazy", "C09_model_exact", "C09_conflict_free_exact"]
 CHECKER = ("coqc Props/C09.v + Print Assumptions; harness async_cases --kind c09 (no hints; 1-3 solves per solver; sync and "
            "yielding runtimes) -> extracted causalb / onceb / exactb on the provider call history; harness solve_cases (sync, hook "
            "log) -> extracted encoder+cache model enc_solve: provider-call sequence equal call for call, encode requests only "
@@ -30,7 +30,13 @@ def run(res, tier, seed, replay):
         erecs, eh = ss.run_streams(estreams, seed + 73, dump=True)
         hangs += eh
     enctie.annotate(erecs)
+    tc.annotate(erecs)
     for r in erecs:
+        t = r.get("trace")
+        if t and r["stream"].startswith("greedy/") and ss.outcome_kind(r["obs"]["outcome"]) == "sat" and not (
+                t.get("db") and t.get("run") and t.get("strict")):
+            res.tie_break(f"trace hypotheses of C09_conflict_free_exact (facts_ok, learnts_ok, run_events, check_sat) no longer check "
+                          f"for a run in {r['stream']}: {t}", tc.trace_replay(r))
         if "enc" not in r:
             continue
         res.count([ss.case_key(r["case"]), r["stream"], "enc"], r["enc"].get("n_calls", 0) >= 4)
